@@ -1,6 +1,7 @@
 """C17 — coercion preserves the value exactly or fails; it never wraps or truncates."""
 from fractions import Fraction
 from . import common as C
+from . import numgen
 
 MANIFEST = dict(
    technique="Lean 4 proof (soundness of the transcribed ToInt64/ToInteger[T]/ToFloat64/ToFloat[T]/ToBool/ToBigInt/To[T] and of the coercing-schema pipeline over all of Int and all dyadic floats) + differential correspondence of that model against pkg/coerce and the gozod/coerce schemas, judged by a math/big oracle",
@@ -8,7 +9,7 @@ MANIFEST = dict(
    note="Trusted: Lean kernel; axioms propext/Classical.choice/Quot.sound only; the Go harness, its math/big oracle and the comparer; strconv.ParseInt/ParseFloat/FormatFloat, big.Int.SetString, strings.TrimSpace/ToLower enter the model as parameters whose results the harness ships with each case (their correctness is assumed, cross-checked against math/big on the generated cases only). amd64 semantics of int64(float). The model is a hand transcription validated on generated cases, not for all inputs. ToFloat64 of a complex source returns the magnitude (open known finding complex-magnitude, witness theorem complex_magnitude_witness). Time and []byte sources and complex/time targets are outside the property and not modelled. Spurious failures (e.g. uint64 values above MaxInt64, +Inf into float32) are allowed by the statement and only counted.",
    design="DESIGN.md §5 C17, §3.6; notes/C17.md")
 
-MODULES = ["Gozod.Proofs.C17"]
+MODULES = ["Gozod.Proofs.C17", "Gozod.Proofs.C17Dispatch"]
 THEOREMS = [
     "Gozod.C17.c17_int64_sound", "Gozod.C17.c17_int64_err", "Gozod.C17.c17_int64_err_nan", "Gozod.C17.c17_int64_err_inf",
     "Gozod.C17.c17_int64_err_fractional", "Gozod.C17.c17_int64_err_range", "Gozod.C17.floatToInt64_complete",
@@ -19,6 +20,14 @@ THEOREMS = [
     "Gozod.C17.c17_schema_int_sound", "Gozod.C17.c17_schema_sound", "Gozod.C17.c17_schema_check_exact", "Gozod.C17.toInteger_int_iff", "Gozod.C17.c17_float64_partial", "Gozod.C17.complex_magnitude_witness",
     "Gozod.C17.legacy_int64_wraps_f64", "Gozod.C17.legacy_int64_wraps_f32", "Gozod.C17.legacy_integer_truncates",
     "Gozod.C17.legacy_integer_nan", "Gozod.C17.legacy_not_sound",
+    # over the tables regenerated from the source (Gen/CoerceDispatch.lean)
+    "Gozod.C17D.floatToInt64_table", "Gozod.C17D.ToInt64_table", "Gozod.C17D.ToFloat64_table", "Gozod.C17D.ToBool_table",
+    "Gozod.C17D.ToString_table", "Gozod.C17D.ToBigInt_table", "Gozod.C17D.bounds_table", "Gozod.C17D.ToInteger_table",
+    "Gozod.C17D.f32_tail", "Gozod.C17D.toFloat32_table", "Gozod.C17D.stringToInt64_table", "Gozod.C17D.stringToFloat_table",
+    "Gozod.C17D.stringToFloat64_table", "Gozod.C17D.bigIntToFloat64_table", "Gozod.C17D.string_calls", "Gozod.C17D.To_routes",
+    "Gozod.C17D.schema_routes", "Gozod.C17D.bool_words", "Gozod.C17D.bool_pre", "Gozod.C17D.frames", "Gozod.C17D.deref_first",
+    "Gozod.C17D.nil_table", "Gozod.C17D.case_types_known", "Gozod.C17D.results_known",
+    "Gozod.C17D.c17_int64_sound_table", "Gozod.C17D.c17_integer_sound_table",
 ]
 
 def _src(t, i):
@@ -132,9 +141,13 @@ def satisfies(impl, S):
     return False
 
 def run(res):
+    # translator: regenerate Gen/CoerceDispatch.lean from the working tree, then the proofs over it
+    gok, gdetail, gdiff = numgen.regenerate(res, "C17", "CoerceDispatch.lean")
+    if not gok:
+        C.tie_broken(res, "translator C17/CoerceDispatch", gdetail)
     ok, detail = C.prove(res, MODULES, THEOREMS)
     if not ok:
-        C.tie_broken(res, "proof Gozod.Proofs.C17", detail)
+        C.tie_broken(res, "proof Gozod.Proofs.C17 + C17Dispatch over the regenerated CoerceDispatch", detail + numgen.explain(gdiff))
     data, err = C.correspond(res, "C17")
     if data is None:
         C.tie_broken(res, "correspondence C17/coerce", err)
